@@ -28,6 +28,7 @@ import (
 	"sync"
 	"time"
 
+	"github.com/krotik/common/sortutil"
 	"github.com/krotik/ecal/engine"
 	"github.com/krotik/ecal/interpreter"
 	"github.com/krotik/ecal/parser"
@@ -63,6 +64,8 @@ func c10Hook(point string, args ...interface{}) {
 type c10Rule struct {
 	prio        int
 	fails, kids bool
+	mode        int // how a sink fails: 1 raise, 2 runtime error (unknown function), 3 top-level return
+	frac        int // sinks: digit after the decimal point of the priority (the interpreter floors)
 }
 
 // c10Lifecycle replays a history of life-cycle calls (letters: see parseHistory in the Lean
@@ -112,20 +115,22 @@ func c10Lifecycle(proc engine.Processor, hist string, load func()) {
 	}
 }
 
-func c10RunRules(flag bool, hist string, specs []c10Rule) string {
+func c10RunRules(flag bool, hist string, specs []c10Rule, names bool) string {
 	proc := engine.NewProcessor(1)
 	proc.SetFailOnFirstErrorInTriggerSequence(flag)
 	var mu sync.Mutex
 	var started []string
+	var startedNames []string
 	kids := 0
 	var rules []*engine.Rule
 	for i := range specs {
-		sp := specs[i]
+		sp, i := specs[i], i
 		rules = append(rules, (&engine.Rule{
 			Name: fmt.Sprintf("r%d", i), KindMatch: []string{"e"}, ScopeMatch: []string{}, Priority: sp.prio,
 			Action: func(p engine.Processor, m engine.Monitor, e *engine.Event, tid uint64) error {
 				mu.Lock()
 				started = append(started, strconv.Itoa(sp.prio))
+				startedNames = append(startedNames, strconv.Itoa(i))
 				mu.Unlock()
 				if sp.kids {
 					if _, err := p.AddEvent(engine.NewEvent("kid", []string{"c"}, nil), m.NewChildMonitor(sp.prio)); err != nil {
@@ -161,9 +166,16 @@ func c10RunRules(flag bool, hist string, specs []c10Rule) string {
 		for _, te := range rm.AllErrors() {
 			for name := range te.ErrorMap {
 				i, _ := strconv.Atoi(strings.TrimPrefix(name, "r"))
-				errPrios = append(errPrios, specs[i].prio)
+				if names {
+					errPrios = append(errPrios, i)
+				} else {
+					errPrios = append(errPrios, specs[i].prio)
+				}
 			}
 		}
+	}
+	if names {
+		started = startedNames
 	}
 	sort.Ints(errPrios)
 	es := make([]string, len(errPrios))
@@ -194,12 +206,23 @@ var (
 func c10RunSinks(hist string, specs []c10Rule) string {
 	var src strings.Builder
 	for i, sp := range specs {
-		fmt.Fprintf(&src, "sink s%d\n  kindmatch [\"e\"],\n  priority %d\n{\n  x.c10log(%d)\n", i, sp.prio, sp.prio)
+		prio := strconv.Itoa(sp.prio)
+		if sp.frac > 0 && sp.prio >= 0 {
+			prio += "." + strconv.Itoa(sp.frac)
+		}
+		fmt.Fprintf(&src, "sink s%d\n  kindmatch [\"e\"],\n  priority %s\n{\n  x.c10log(%d)\n", i, prio, sp.prio)
 		if sp.kids {
 			src.WriteString("  addEvent(\"kid\", \"c\", {})\n")
 		}
 		if sp.fails {
-			src.WriteString("  raise(\"scripted\", \"failure\")\n")
+			switch sp.mode {
+			case 2:
+				src.WriteString("  c10thisfunctiondoesnotexist()\n")
+			case 3:
+				src.WriteString("  return 1\n")
+			default:
+				src.WriteString("  raise(\"scripted\", \"failure\")\n")
+			}
 		}
 		src.WriteString("}\n")
 	}
@@ -259,6 +282,87 @@ func c10RunSinks(hist string, specs []c10Rule) string {
 	return "exec=" + c10Join(c10SinkLog, ".") + " err=" + c10Join(es, ".") + " kids=" + strconv.Itoa(c10SinkKids)
 }
 
+// ---------------------------------------------------------------- Q: sortutil.PriorityQueue directly
+
+// c10Layout turns PriorityQueue.String() ("[ v (p) v (p) ]", slice order of the heap) into "[v:p,v:p]".
+func c10Layout(pq *sortutil.PriorityQueue) string {
+	f := strings.Fields(strings.Trim(pq.String(), "[] "))
+	var out []string
+	for i := 0; i+1 < len(f); i += 2 {
+		out = append(out, f[i]+":"+strings.Trim(f[i+1], "()"))
+	}
+	return "[" + strings.Join(out, ",") + "]"
+}
+
+func c10RunQueue(ops []string) string {
+	pq := sortutil.NewPriorityQueue()
+	every := len(ops) <= 48
+	n := 0
+	var out []string
+	val := func(x interface{}) string {
+		if x == nil {
+			return "n"
+		}
+		return fmt.Sprint(x)
+	}
+	for _, op := range ops {
+		var tok string
+		switch {
+		case strings.HasPrefix(op, "+"):
+			p, _ := strconv.Atoi(op[1:])
+			pq.Push(n, p)
+			n++
+			tok = "L"
+		case op == "-":
+			tok = "p" + val(pq.Pop())
+		case op == "k":
+			tok = "k" + val(pq.Peek())
+		default:
+			pq.Clear()
+			tok = "c"
+		}
+		if every {
+			tok += c10Layout(pq)
+		}
+		out = append(out, tok)
+	}
+	return strings.TrimSpace(strings.Join(out, " ") + " end" + c10Layout(pq))
+}
+
+func c10RandomQueue(g *Gen, nops, nprio int) string {
+	ops := make([]string, 0, nops)
+	size := 0
+	for len(ops) < nops {
+		switch x := g.R.Intn(20); {
+		case x < 11 || (size == 0 && x < 17):
+			p := g.R.Intn(nprio)
+			if g.R.Intn(8) == 0 {
+				p = -1 - g.R.Intn(4)
+			}
+			ops = append(ops, "+"+strconv.Itoa(p))
+			size++
+		case x < 17:
+			ops = append(ops, "-")
+			if size > 0 {
+				size--
+			}
+		case x < 19:
+			ops = append(ops, "k")
+		default:
+			if g.R.Intn(6) == 0 {
+				ops = append(ops, "c")
+				size = 0
+			} else {
+				ops = append(ops, "-")
+				if size > 0 {
+					size--
+				}
+			}
+		}
+	}
+	return "Q " + strings.Join(ops, " ")
+}
+
 // ---------------------------------------------------------------- B: bookkeeping
 
 func c10RunBook(ops []string) string {
@@ -304,13 +408,17 @@ func c10RunBook(ops []string) string {
 
 // ---------------------------------------------------------------- K: cascades
 
+type c10NodeRule struct {
+	prio     int
+	fails    bool
+	children []int
+}
+
 type c10Node struct {
-	parent         int // -1: added from outside
-	prio           int
-	useRoot        bool
-	trig, fails    bool
-	children       []int
-	willRun        bool
+	parentEv, parentRule int // -1: added from outside
+	prio                 int
+	useRoot              bool
+	rules                []c10NodeRule
 }
 
 func c10ParseRoots(s string) ([][]c10Node, bool) {
@@ -319,26 +427,38 @@ func c10ParseRoots(s string) ([][]c10Node, bool) {
 		var nodes []c10Node
 		for _, ns := range strings.Split(rs, ",") {
 			f := strings.Split(ns, ":")
-			if len(f) != 4 {
+			if len(f) != 3 {
 				return nil, false
 			}
-			n := c10Node{parent: -1, trig: f[2] == "1", fails: f[3] == "1"}
+			n := c10Node{parentEv: -1, parentRule: -1}
 			if f[0] != "r" {
-				n.parent, _ = strconv.Atoi(f[0])
+				x := strings.Split(f[0], ".")
+				if len(x) != 2 {
+					return nil, false
+				}
+				n.parentEv, _ = strconv.Atoi(x[0])
+				n.parentRule, _ = strconv.Atoi(x[1])
 			}
 			if f[1] == "R" {
 				n.useRoot = true
 			} else {
 				n.prio, _ = strconv.Atoi(f[1])
 			}
+			if f[2] != "-" {
+				for _, r := range strings.Split(f[2], ";") {
+					x := strings.Split(r, "/")
+					if len(x) != 2 {
+						return nil, false
+					}
+					p, _ := strconv.Atoi(x[0])
+					n.rules = append(n.rules, c10NodeRule{prio: p, fails: x[1] == "1"})
+				}
+			}
 			nodes = append(nodes, n)
 		}
 		for i := range nodes {
-			if p := nodes[i].parent; p >= 0 {
-				nodes[p].children = append(nodes[p].children, i)
-				nodes[i].willRun = nodes[p].willRun && nodes[i].trig
-			} else {
-				nodes[i].willRun = nodes[i].trig
+			if e, k := nodes[i].parentEv, nodes[i].parentRule; e >= 0 && e < len(nodes) && k >= 0 && k < len(nodes[e].rules) {
+				nodes[e].rules[k].children = append(nodes[e].rules[k].children, i)
 			}
 		}
 		roots = append(roots, nodes)
@@ -346,46 +466,76 @@ func c10ParseRoots(s string) ([][]c10Node, bool) {
 	return roots, true
 }
 
-func c10RunCascade(payload string, workers int, roots [][]c10Node) string {
+type c10Pair struct{ e, k int }
+
+func c10Pairs(ps []c10Pair) string {
+	sort.Slice(ps, func(a, b int) bool { return ps[a].e < ps[b].e || (ps[a].e == ps[b].e && ps[a].k < ps[b].k) })
+	ss := make([]string, len(ps))
+	for i, p := range ps {
+		ss[i] = fmt.Sprintf("%d/%d", p.e, p.k)
+	}
+	return c10Join(ss, ".")
+}
+
+func c10RunCascade(payload string, workers int, flag bool, roots [][]c10Node) string {
 	proc := engine.NewProcessor(workers)
+	proc.SetFailOnFirstErrorInTriggerSequence(flag)
 	var mu sync.Mutex
 	started := make([][]string, len(roots))
-	startedIDs := make([][]int, len(roots))
-	var wg sync.WaitGroup
-	for _, nodes := range roots {
+	startedIDs := make([][]c10Pair, len(roots))
+	// schedule-independent oracle for HighestPriority() inside an action: the own monitor is active,
+	// so the report is at most the own priority and is the priority of some triggering event of that root
+	prioSet := make([]map[int]bool, len(roots))
+	for r, nodes := range roots {
+		prioSet[r] = map[int]bool{}
 		for _, n := range nodes {
-			if n.willRun {
-				wg.Add(1)
-			}
-		}
-	}
-	mkEvent := func(r, i int) *engine.Event {
-		kind := "nop"
-		if roots[r][i].trig {
-			kind = "ev"
-		}
-		return engine.NewEvent(fmt.Sprintf("n%d.%d", r, i), []string{kind}, map[interface{}]interface{}{"r": r, "n": i})
-	}
-	check(proc.AddRule(&engine.Rule{
-		Name: "ev", KindMatch: []string{"ev"}, ScopeMatch: []string{},
-		Action: func(p engine.Processor, m engine.Monitor, e *engine.Event, tid uint64) error {
-			defer wg.Done()
-			r, i := e.State()["r"].(int), e.State()["n"].(int)
-			hp := m.RootMonitor().HighestPriority()
-			mu.Lock()
-			started[r] = append(started[r], fmt.Sprintf("%d@%d", i, hp))
-			startedIDs[r] = append(startedIDs[r], i)
-			mu.Unlock()
-			for _, c := range roots[r][i].children {
-				if _, err := p.AddEvent(mkEvent(r, c), m.NewChildMonitor(roots[r][c].prio)); err != nil {
-					panic(err)
+			if len(n.rules) > 0 {
+				if n.useRoot {
+					prioSet[r][0] = true
+				} else {
+					prioSet[r][n.prio] = true
 				}
 			}
-			if roots[r][i].fails {
-				return errors.New("scripted failure")
+		}
+	}
+	hpBad := ""
+	mkEvent := func(r, i int) *engine.Event {
+		kind := []string{"nop"}
+		if len(roots[r][i].rules) > 0 {
+			kind = []string{"ev", fmt.Sprintf("r%dn%d", r, i)}
+		}
+		return engine.NewEvent(fmt.Sprintf("n%d.%d", r, i), kind, map[interface{}]interface{}{"r": r, "n": i})
+	}
+	for r := range roots {
+		for i := range roots[r] {
+			for k := range roots[r][i].rules {
+				r, i, k := r, i, k
+				rule := roots[r][i].rules[k]
+				check(proc.AddRule(&engine.Rule{
+					Name: fmt.Sprintf("r%dn%dk%d", r, i, k), KindMatch: []string{fmt.Sprintf("ev.r%dn%d", r, i)}, ScopeMatch: []string{},
+					Priority: rule.prio,
+					Action: func(p engine.Processor, m engine.Monitor, e *engine.Event, tid uint64) error {
+						hp := m.RootMonitor().HighestPriority()
+						mu.Lock()
+						if (hp > m.Priority() || !prioSet[r][hp]) && hpBad == "" {
+							hpBad = fmt.Sprintf("bad:root%d.event%d:own=%d:reported=%d", r, i, m.Priority(), hp)
+						}
+						started[r] = append(started[r], fmt.Sprintf("%d/%d@%d", i, k, hp))
+						startedIDs[r] = append(startedIDs[r], c10Pair{i, k})
+						mu.Unlock()
+						for _, c := range rule.children {
+							if _, err := p.AddEvent(mkEvent(r, c), m.NewChildMonitor(roots[r][c].prio)); err != nil {
+								panic(err)
+							}
+						}
+						if rule.fails {
+							return errors.New("scripted failure")
+						}
+						return nil
+					}}))
 			}
-			return nil
-		}}))
+		}
+	}
 	gate := make(chan struct{})
 	var atGate sync.WaitGroup
 	atGate.Add(workers)
@@ -414,7 +564,7 @@ func c10RunCascade(payload string, workers int, roots [][]c10Node) string {
 	for r, nodes := range roots {
 		rms[r] = proc.NewRootMonitor(nil, nil)
 		for i, n := range nodes {
-			if n.parent >= 0 {
+			if n.parentEv >= 0 {
 				continue
 			}
 			var m engine.Monitor = rms[r]
@@ -427,7 +577,8 @@ func c10RunCascade(payload string, workers int, roots [][]c10Node) string {
 		}
 	}
 	close(gate)
-	wg.Wait()
+	// all workers idle and nothing queued: only actions add events, so the cascades are over
+	proc.ThreadPool().WaitAll()
 	proc.Finish()
 	var trace []string
 	if tracing {
@@ -437,26 +588,24 @@ func c10RunCascade(payload string, workers int, roots [][]c10Node) string {
 	}
 	var res []string
 	for r := range roots {
-		var errIDs []int
+		var errIDs []c10Pair
 		for _, te := range rms[r].AllErrors() {
-			errIDs = append(errIDs, te.Event.State()["n"].(int))
-		}
-		sort.Ints(errIDs)
-		es := make([]string, len(errIDs))
-		for i, id := range errIDs {
-			es[i] = strconv.Itoa(id)
-		}
-		if workers == 1 {
-			res = append(res, c10Join(started[r], ".")+" err="+c10Join(es, "."))
-		} else {
-			sort.Ints(startedIDs[r])
-			ss := make([]string, len(startedIDs[r]))
-			for i, id := range startedIDs[r] {
-				ss[i] = strconv.Itoa(id)
+			for name := range te.ErrorMap {
+				k, _ := strconv.Atoi(name[strings.LastIndex(name, "k")+1:])
+				errIDs = append(errIDs, c10Pair{te.Event.State()["n"].(int), k})
 			}
-			res = append(res, "set="+c10Join(ss, ".")+" err="+c10Join(es, "."))
+		}
+		end := " end=" + strconv.Itoa(rms[r].HighestPriority())
+		if workers == 1 {
+			res = append(res, c10Join(started[r], ".")+" err="+c10Pairs(errIDs)+end)
+		} else {
+			res = append(res, "set="+c10Pairs(startedIDs[r])+" err="+c10Pairs(errIDs)+end)
 		}
 	}
+	if hpBad == "" {
+		hpBad = "ok"
+	}
+	res[len(res)-1] += " hp=" + hpBad
 	if tracing {
 		if len(trace) == 0 {
 			CountRun("trace.no-hook-events")
@@ -489,7 +638,14 @@ func c10RulePayload(flag bool, rs []c10Rule) string {
 		return "0"
 	}
 	for _, r := range rs {
-		fmt.Fprintf(&sb, " %d:%s:%s", r.prio, b(r.fails), b(r.kids))
+		f := b(r.fails)
+		if r.fails && r.mode > 1 {
+			f = strconv.Itoa(r.mode)
+		}
+		fmt.Fprintf(&sb, " %d:%s:%s", r.prio, f, b(r.kids))
+		if r.frac > 0 {
+			fmt.Fprintf(&sb, ":%d", r.frac)
+		}
 	}
 	return sb.String()
 }
@@ -587,16 +743,61 @@ func c10RandomBook(g *Gen, maxPrio int, n int) string {
 	return "B " + strings.Join(ops, " ")
 }
 
+// c10StressBook: many distinct priorities active at once (a large IntHeap), then a long mix of
+// finishes (RemoveFirst in the middle of the slice) and activations.
+func c10StressBook(g *Gen) string {
+	d := 8 + g.R.Intn(23)
+	perm := make([]int, 64)
+	for i := range perm {
+		perm[i] = i
+	}
+	for i := len(perm) - 1; i > 0; i-- {
+		j := g.R.Intn(i + 1)
+		perm[i], perm[j] = perm[j], perm[i]
+	}
+	var ops []string
+	var active []int // monitor numbers
+	next := 1
+	act := func(p int) {
+		ops = append(ops, fmt.Sprintf("N%d", p), fmt.Sprintf("A%d", next))
+		active = append(active, next)
+		next++
+	}
+	for _, p := range perm[:d] {
+		act(p)
+	}
+	for k := 40 + g.R.Intn(120); k > 0; k-- {
+		if len(active) > 0 && g.R.Intn(5) < 3 {
+			i := g.R.Intn(len(active))
+			ops = append(ops, fmt.Sprintf("F%d", active[i]))
+			active = append(active[:i], active[i+1:]...)
+		} else {
+			act(perm[g.R.Intn(len(perm))])
+		}
+	}
+	for len(active) > 0 {
+		i := g.R.Intn(len(active))
+		ops = append(ops, fmt.Sprintf("F%d", active[i]))
+		active = append(active[:i], active[i+1:]...)
+	}
+	return "B " + strings.Join(ops, " ")
+}
+
 func c10RandomRoots(g *Gen, maxRoots, maxNodes int, negative bool) string {
 	nr := 1 + g.R.Intn(maxRoots)
 	var roots []string
 	for r := 0; r < nr; r++ {
 		n := 1 + g.R.Intn(maxNodes)
 		var nodes []string
+		nrules := make([]int, n)
 		for i := 0; i < n; i++ {
 			parent := "r"
 			if i > 0 && g.R.Intn(4) != 0 {
-				parent = strconv.Itoa(g.R.Intn(i))
+				// added by a rule of an earlier event (if that event has rules)
+				e := g.R.Intn(i)
+				if nrules[e] > 0 {
+					parent = fmt.Sprintf("%d.%d", e, g.R.Intn(nrules[e]))
+				}
 			}
 			prio := strconv.Itoa(g.R.Intn(6))
 			if negative && g.R.Intn(6) == 0 {
@@ -605,23 +806,59 @@ func c10RandomRoots(g *Gen, maxRoots, maxNodes int, negative bool) string {
 			if i == 0 && g.R.Bool() {
 				prio = "R"
 			}
-			trig, fails := "1", "0"
-			if g.R.Intn(7) == 0 {
-				trig = "0"
+			rules := "-"
+			if g.R.Intn(7) != 0 {
+				// 1..4 rules with distinct priorities (ties are covered by the validated R cases)
+				k := 1
+				if g.R.Intn(3) != 0 {
+					k = 2 + g.R.Intn(3)
+				}
+				nrules[i] = k
+				perm := []int{0, 1, 2, 3, 4, 5, -1}
+				for x := len(perm) - 1; x > 0; x-- {
+					y := g.R.Intn(x + 1)
+					perm[x], perm[y] = perm[y], perm[x]
+				}
+				var rs []string
+				for x := 0; x < k; x++ {
+					f := "0"
+					if g.R.Intn(4) == 0 {
+						f = "1"
+					}
+					rs = append(rs, fmt.Sprintf("%d/%s", perm[x], f))
+				}
+				rules = strings.Join(rs, ";")
 			}
-			if g.R.Intn(5) == 0 {
-				fails = "1"
-			}
-			nodes = append(nodes, parent+":"+prio+":"+trig+":"+fails)
+			nodes = append(nodes, parent+":"+prio+":"+rules)
 		}
 		roots = append(roots, strings.Join(nodes, ","))
 	}
 	return strings.Join(roots, "|")
 }
 
+func c10ParseRule(s string) c10Rule {
+	x := strings.Split(s, ":")
+	p, _ := strconv.Atoi(x[0])
+	r := c10Rule{prio: p, fails: x[1] != "0", kids: x[2] == "1", mode: 1}
+	if r.fails {
+		r.mode, _ = strconv.Atoi(x[1])
+	}
+	if len(x) > 3 {
+		r.frac, _ = strconv.Atoi(x[3])
+	}
+	return r
+}
+
 func init() {
 	register("C10", &Prop{
-		Timeout:          20 * time.Second,
+		Timeout: 20 * time.Second,
+		Tool: func(args []string) int {
+			if len(args) == 2 && args[0] == "facts" {
+				return c10Facts(args[1])
+			}
+			fmt.Fprintln(os.Stderr, "usage: harness C10 -tool facts <out.lean>")
+			return 2
+		},
 		NoRestartOnPanic: false,
 		Setup: func() {
 			verifhook.SetHandler(c10Hook)
@@ -649,12 +886,17 @@ func init() {
 				"R 0 0:0:1 1:0:0 2:1:1 3:0:0 4:1:0 5:0:0",
 				"R 1 5:0:0 4:0:0 3:0:0 2:0:0 1:0:0 0:0:0",
 				"S 3:0:0 0:0:1 2:1:1 1:0:0 5:0:0 4:1:0",
+				"S 3:0:0 0:0:1 2:2:1 1:0:0:7",
+				"S 3:0:0 0:0:1 2:3:1 -1:0:0",
+				"V 1 1:0:0 1:1:1 1:0:1 2:0:0",
+				"V 0 1:0:0 1:1:1 1:0:1 0:1:0",
 				"S Hl 3:0:0 0:0:1 2:1:1 1:0:0 5:0:0 4:1:0",
 				"R 1 Hsfra 1:1:0 2:0:0 0:0:1",
 				"R 0 HTl 1:1:0 2:0:0 0:0:1",
-				"K 1 r:R:1:0,0:3:1:0,0:1:1:1,0:2:0:0,2:0:1:0|r:5:1:0,r:-2:1:0",
-				"K 1 r:3:1:0,r:1:1:0,r:1:1:0,r:0:1:0,r:-1:1:0,r:2:0:0",
-				"K 4 r:R:1:0,0:3:1:0,0:1:1:1,0:2:0:0,2:0:1:0|r:5:1:0,r:-2:1:0",
+				"K 1 1 r:R:1/1;0/0;2/0,0.0:3:0/0,0.1:1:0/0,0.2:0:0/0,2.0:2:-|r:5:0/0,r:-2:0/1",
+				"K 1 0 r:R:1/1;0/0;2/0,0.0:3:0/0,0.1:1:0/0,0.2:0:0/0,2.0:2:-|r:5:0/0,r:-2:0/1",
+				"K 1 1 r:3:0/0,r:1:0/0,r:1:0/0,r:0:0/0,r:-1:0/0,r:2:-",
+				"K 4 1 r:R:1/1;0/0;2/0,0.0:3:0/0,0.1:1:0/0,0.2:0:0/0,2.0:2:-|r:5:0/0,r:-2:0/1",
 			} {
 				g.Count("corpus")
 				g.Emit(c)
@@ -731,20 +973,102 @@ func init() {
 				g.Count("rules: equal priorities")
 				g.Emit(c10RulePayload(g.R.Bool(), rs))
 			}
+			// R with 13..40 rules (beyond the insertion-sort range of sort.Sort), distinct priorities;
+			// V: ties with mixed outcomes, 0..40 rules — the observed run is validated, not predicted;
+			// S: sinks with equal / negative / fractional priorities and the three ways a sink fails
+			for rep := 0; rep < nRules; rep++ {
+				n := 13 + g.R.Intn(28)
+				perm := make([]int, n)
+				for i := range perm {
+					perm[i] = i - 3
+				}
+				for i := n - 1; i > 0; i-- {
+					j := g.R.Intn(i + 1)
+					perm[i], perm[j] = perm[j], perm[i]
+				}
+				rs := make([]c10Rule, n)
+				for i, p := range perm {
+					rs[i] = c10Rule{prio: p, fails: g.R.Intn(n) < 2, kids: g.R.Intn(4) == 0, mode: 1}
+				}
+				g.Count("rules: 13..40 rules")
+				g.Emit(c10RulePayload(g.R.Bool(), rs))
+
+				for k := 0; k < 3; k++ {
+					n = g.R.Intn(9)
+					if k == 2 {
+						n = 13 + g.R.Intn(28)
+					}
+					vs := make([]c10Rule, n)
+					for i := range vs {
+						vs[i] = c10Rule{prio: g.R.Intn(4) - 1, fails: g.R.Intn(4) == 0, kids: g.R.Intn(3) == 0, mode: 1}
+					}
+					g.Count("rules validated (ties with mixed outcomes)")
+					g.Emit("V" + strings.TrimPrefix(c10RulePayload(g.R.Bool(), vs), "R"))
+				}
+
+				if rep%2 == 0 {
+					n = 1 + g.R.Intn(7)
+					type grp struct {
+						fails, kids bool
+						mode        int
+					}
+					groups := map[int]grp{}
+					var ss []c10Rule
+					for i := 0; i < n; i++ {
+						p := g.R.Intn(5) - 1
+						gr, ok := groups[p]
+						if !ok {
+							gr = grp{g.R.Intn(4) == 0, g.R.Intn(3) == 0, 1 + g.R.Intn(3)}
+							groups[p] = gr
+						}
+						ss = append(ss, c10Rule{prio: p, fails: gr.fails, kids: gr.kids, mode: gr.mode, frac: g.R.Intn(10)})
+					}
+					g.Count("sinks: equal/negative/fractional priorities, raise / runtime error / return")
+					g.Emit("S" + strings.TrimPrefix(c10RulePayload(true, ss), "R 1"))
+				}
+			}
 			// B: exhaustive, then random longer sequences over more priorities
 			c10BookDFS(g, depth)
 			for i := 0; i < nBook; i++ {
 				g.Count("book random")
 				g.Emit(c10RandomBook(g, 3+g.R.Intn(10), 6+g.R.Intn(40)))
 			}
+			nStress := 2500
+			if g.Thorough() {
+				nStress = 30000
+			}
+			for i := 0; i < nStress; i++ {
+				g.Count("book heap stress (8..30 distinct active priorities)")
+				g.Emit(c10StressBook(g))
+			}
+			// Q: sortutil.PriorityQueue against the heap-slice model: values and slice layout
+			nQ := 1500
+			if g.Thorough() {
+				nQ = 40000
+			}
+			for _, c := range []string{"Q -", "Q k +3 k - -", "Q +0 +-2 - -", "Q +5 +9 +3 +11 +8 +4 - +6 +7 - - - - - - -", "Q +1 +1 c +2 +1 - -"} {
+				g.Count("corpus")
+				g.Emit(c)
+			}
+			for i := 0; i < nQ; i++ {
+				g.Count("priority queue ops")
+				switch {
+				case i%50 == 0:
+					g.Emit(c10RandomQueue(g, 200+g.R.Intn(250), 8+g.R.Intn(30)))
+				case i%3 == 0:
+					g.Emit(c10RandomQueue(g, 4+g.R.Intn(45), 2+g.R.Intn(3)))
+				default:
+					g.Emit(c10RandomQueue(g, 4+g.R.Intn(45), 8+g.R.Intn(12)))
+				}
+			}
 			// K: one worker (exact order), then 2..8 workers (sets + trace)
 			for i := 0; i < nK1; i++ {
 				g.Count("cascade 1 worker")
-				g.Emit("K 1 " + c10RandomRoots(g, 3, 10, true))
+				g.Emit(fmt.Sprintf("K 1 %d %s", g.R.Intn(2), c10RandomRoots(g, 3, 10, true)))
 			}
 			for i := 0; i < nKn; i++ {
 				g.Count("cascade 2..8 workers")
-				g.Emit(fmt.Sprintf("K %d %s", 2+g.R.Intn(7), c10RandomRoots(g, 3, 12, true)))
+				g.Emit(fmt.Sprintf("K %d %d %s", 2+g.R.Intn(7), g.R.Intn(2), c10RandomRoots(g, 3, 12, true)))
 			}
 		},
 		Run: func(payload string) string {
@@ -757,11 +1081,26 @@ func init() {
 					hist, rest = rest[0][1:], rest[1:]
 				}
 				for _, s := range rest {
-					x := strings.Split(s, ":")
-					p, _ := strconv.Atoi(x[0])
-					rs = append(rs, c10Rule{p, x[1] == "1", x[2] == "1"})
+					rs = append(rs, c10ParseRule(s))
 				}
-				return c10RunRules(f[1] == "1", hist, rs)
+				return c10RunRules(f[1] == "1", hist, rs, false)
+			case "V":
+				// observed run (rule NAMES) goes to a side file and is validated by the model
+				var rs []c10Rule
+				for _, s := range f[2:] {
+					rs = append(rs, c10ParseRule(s))
+				}
+				obs := c10RunRules(f[1] == "1", "", rs, true)
+				if strings.HasPrefix(obs, "ERR") {
+					return obs
+				}
+				fl, err := os.OpenFile(fmt.Sprintf("c10-validate-%d.txt", os.Getpid()), os.O_APPEND|os.O_CREATE|os.O_WRONLY, 0644)
+				if err != nil {
+					return "ERR " + oneLine(err.Error())
+				}
+				fmt.Fprintf(fl, "%s ## %s\n", payload, obs)
+				fl.Close()
+				return "validated"
 			case "S":
 				var rs []c10Rule
 				hist, rest := "", f[1:]
@@ -769,20 +1108,23 @@ func init() {
 					hist, rest = rest[0][1:], rest[1:]
 				}
 				for _, s := range rest {
-					x := strings.Split(s, ":")
-					p, _ := strconv.Atoi(x[0])
-					rs = append(rs, c10Rule{p, x[1] == "1", x[2] == "1"})
+					rs = append(rs, c10ParseRule(s))
 				}
 				return c10RunSinks(hist, rs)
 			case "B":
 				return c10RunBook(f[1:])
+			case "Q":
+				return c10RunQueue(f[1:])
 			case "K":
+				if len(f) != 4 {
+					return "bad-payload"
+				}
 				w, _ := strconv.Atoi(f[1])
-				roots, ok := c10ParseRoots(f[2])
+				roots, ok := c10ParseRoots(f[3])
 				if !ok || w < 1 {
 					return "bad-payload"
 				}
-				return c10RunCascade(payload, w, roots)
+				return c10RunCascade(payload, w, f[2] == "1", roots)
 			}
 			return "bad-payload"
 		},
